@@ -645,7 +645,7 @@ def rule_flt(S):
                     'the pushing closure to its call (deliver), the loop latch (skip) or `return OK_SCAN_END` (the range '
                     'ended), over every combination of {INF, INCLUSIVE, EXCLUSIVE}^2 x sign of the left slice comparison x '
                     'l_key.size() vs the entry length x sign of the right key comparison x r_key.size() vs the entry\'s key '
-                    'size (486 consistent rows): the outcome equals the bytewise-lexicographic reference (zero-padded '
+                    'size (the consistent rows; an INF left endpoint comes with an empty key): the outcome equals the bytewise-lexicographic reference (zero-padded '
                     'slices equal: the shorter key sorts first): left: deliver iff key > l (EXCLUSIVE) / key >= l '
                     '(INCLUSIVE); right: deliver iff key < r / key <= r, end otherwise')
     from yk.flow import dominators
@@ -713,6 +713,8 @@ def rule_flt(S):
                     for lsz in (3, 4, 5):
                         for rc in (-1, 0, 1):
                             for rsz in (3, 4, 5):
+                                if l == INF and (lc > 0 or lsz != 3):
+                                    continue    # an INF left endpoint comes with an empty key (normalised pair, R-INF)
                                 keep_l = l == INF or lc < 0 or (lc == 0 and (lsz < 4 or (lsz == 4 and l == INCL)))
                                 right = 'keep' if (r == INF or rc > 0 or
                                                    (rc == 0 and (rsz > 4 or (rsz == 4 and r == INCL)))) else 'end'
@@ -998,6 +1000,8 @@ def rule_dsc(S):
                         for rc in (-1, 0, 1):
                             for rsz in (Fk - 1, Fk, Fk + 1):
                                 # reference
+                                if l == INF and (lc > 0 or lsz != 4):
+                                    continue    # an INF left endpoint comes with an empty key (normalised pair, R-INF)
                                 nothing = {('inf',), ('empty', INCL), ('empty', EXCL)}   # left bounds that exclude nothing
                                 if l == INF or lc < 0:
                                     wl = nothing
